@@ -1,8 +1,9 @@
 """C02 — future references obey the end of the trace while the trace is extended.
 Theorems: coq/Props/C02.v.  Correspondence S4 on programs rich in future heads and look-ahead constraints, horizons
 0..H of one incremental run (including h smaller than the look-ahead)."""
-import gen, s4
-from props.c01 import summarize, replay  # noqa
+import gen, s4, ftstruct
+from props import c01
+from props.c01 import summarize  # noqa
 
 PROP_FILE = 'Props/C02.v'
 GROUPS = ['imain']
@@ -49,6 +50,14 @@ def programs(ctx):
     return progs
 
 
+# programs the transformer must reject (future atoms in bodies of rules that are no constraints, future heads of disjunctions and choices are
+# not expressible here): the model, built over the regenerated decisions, rejects them too
+REJECTED = [[{'part': 'always', 'head': ('norm', 'a', 0), 'body': [('p', ('fatom', 'b', 1))]}],
+            [{'part': 'dynamic', 'head': ('choice', ['a']), 'body': [('n', ('fatom', 'b', 2))]}],
+            [{'part': 'always', 'head': ('choice', ['a', 'b']), 'body': []}, {'part': 'initial', 'head': ('disj', ['a', 'b']), 'body': [('m', ('fatom', 'a', 1))]}],
+            [{'part': 'final', 'head': ('norm', 'a', 1), 'body': [('p', ('fatom', 'b', 1))]}]]
+
+
 def run(ctx):
     H = 4 if ctx.quick else 5
     maxbits = 12 if ctx.quick else 13
@@ -57,6 +66,29 @@ def run(ctx):
     res = summarize(ctx, progs, recs, H, maxbits, 'C02')
     fut = sum(1 for _, p in progs if any(r['head'][0] == 'norm' and r['head'][2] > 0 for r in p))
     la = sum(1 for _, p in progs if any(l[1][0] == 'fatom' for r in p for l in r['body']))
+    # structural correspondence: transformers.transform against the extracted Model/FutTransform.transform_program (rules, bridge rules, future
+    # signatures, look-ahead constraint parts with temporary / permanent copies, parts to ground)
+    sp = [p for _, p in progs if ftstruct.in_fragment(p)] + REJECTED
+    srecs = ftstruct.compare(ctx, sp)
+    sstat = {}
+    for p, r in zip(sp, srecs):
+        sstat[r['status']] = sstat.get(r['status'], 0) + 1
+        if r['status'] not in ('agree', 'agree-rejected'):
+            res['counterexamples'].append({'key': 'c02:transform:' + r['program'].replace('\n', ' '), 'what': 'transform() and Model/FutTransform.transform_program differ: %s' % r.get('what'),
+                                           'input': {'transform_rules': p, 'program': r['program']}})
+    res['coverage']['evaluations'] += len(srecs)
+    res['coverage']['transform_structure_status'] = sstat
+    res['coverage']['transform_structure_lookahead_groups'] = sum(r['lookahead_groups'] for r in srecs)
+    res['coverage']['transform_structure_future_predicates'] = sum(r['future_predicates'] for r in srecs)
+    res['coverage']['rule'] += ('; structure: the output of transformers.transform for %d programs (rewritten rules in order, bridge rules and future signatures, look-ahead constraints '
+                                'grouped by part and depth with both copies, parts to ground, trailer) compared with the extracted model FutTransform' % len(srecs))
     res['coverage']['programs_with_future_head'] = fut
     res['coverage']['programs_with_lookahead'] = la
     return res
+
+
+def replay(ctx, payload):
+    inp = payload['input']
+    if 'transform_rules' in inp:
+        return ftstruct.compare(ctx, [inp['transform_rules']])[0]['status'] not in ('agree', 'agree-rejected')
+    return c01.replay(ctx, payload)
